@@ -1,7 +1,82 @@
 import NpsVerif.Model.Structural
 import NpsVerif.Spec.Rows
+import NpsVerif.Proofs.ColAgg
+import NpsVerif.Props.C02GetItem
+/-! Property C09: column aggregates of a RaggedArray (`sum(axis=0)`, `col_counts`,
+`get_column_values`) against their list-of-rows meaning. -/
 namespace Props.C09
-open Model
-/-- sanity instance; the universally quantified theorems are added as they are proved -/
+open Model Np
+variable {α : Type}
+
+/-- sanity instance -/
 theorem colsum_example : colSum (RA.ofRows [[1, 2], [], [3, 4, 5], []]) = some [4, 6, 5] := by decide
+
+/-- column j of `sum(axis=0)` is the sum of row[j] over exactly the rows with more than j cells -/
+theorem C09_col_sum (rows : List (List Int)) :
+    colSum (RA.ofRows rows) = some (Spec.colSum rows) := by
+  obtain ⟨rc, h1, h2⟩ := unravel_all (rows.map List.length)
+  have hsz : (RA.ofRows rows).size = (rows.map List.length).sum := by
+    simp [RA.size, RA.ofRows, ofLens_lengths]
+  unfold colSum
+  simp only [hsz]
+  simp only [RA.ofRows, ofLens_lengths] at h1 ⊢
+  rw [h1, Option.map_some, h2]
+  simp only [Spec.colSum, col_filter]
+
+/-- col_counts()[j] is the number of rows with more than j cells -/
+theorem C09_col_counts (rows : List (List α)) :
+    colCounts (RA.ofRows rows) = Spec.colCounts rows := by
+  unfold colCounts Spec.colCounts
+  simp only [RA.ofRows, RA.len, ofLens_lengths, ofLens_nRows]
+  refine Eq.trans (colCounts_core (rows.map List.length)) ?_
+  apply List.map_congr_left
+  intro j _
+  rw [List.countP_map, ← List.countP_eq_length_filter]
+  rfl
+
+/-- selecting the rows that reach column `j` and reading their cell `j` -/
+theorem mask_column {α} (rows : List (List α)) (j : Nat) :
+    ((rows.zip ((rows.map List.length).map (fun l => decide (l > j)))).filterMap
+        (fun rb => if rb.2 then some rb.1 else none)).mapM (Py.index · (j : Int))
+      = some (rows.filterMap (·[j]?)) := by
+  induction rows with
+  | nil => simp
+  | cons r rs ih =>
+    simp only [List.map_cons, List.zip_cons_cons, List.filterMap_cons]
+    by_cases h : r.length > j
+    · have hlt : j < r.length := h
+      have hidx : Py.index r (j : Int) = some r[j] := by
+        unfold Py.index
+        rw [getIdx_in_range r j (by omega)]
+        simp [List.getElem?_eq_getElem hlt]
+      simp only [h, decide_true, if_true, List.getElem?_eq_getElem hlt]
+      rw [mapM_cons', hidx, ih]
+      simp
+    · have hn : r[j]? = none := List.getElem?_eq_none (by omega)
+      simp only [h, decide_false, hn]
+      exact ih
+
+/-- get_column_values(j): the j-th cells of the rows that have one, in row order -/
+theorem C09_column_values (rows : List (List α)) (j : Nat) :
+    columnValues (RA.ofRows rows) j = some (.vec (rows.filterMap (·[j]?))) := by
+  unfold columnValues
+  rw [Props.C02.C02_getitem]
+  have hl : (RA.ofRows rows).shape.lengths = rows.map List.length := by
+    simp [RA.ofRows, ofLens_lengths]
+  rw [hl]
+  simp only [Py.getitem, Py.selectRows, List.length_map, if_true, Option.bind_some]
+  rw [mask_column]
+  rfl
+
+/- non-vacuity: empty rows at the start, in the middle and at the end -/
+example : colSum (RA.ofRows [[], [1, 2], [], [3, 4, 5], [-7], []]) = some [-3, 6, 5] ∧
+    Spec.colSum [[], [1, 2], [], [3, 4, 5], [-7], []] = [-3, 6, 5] := by decide
+example : colSum (RA.ofRows [[], []]) = some [] ∧ colSum (RA.ofRows []) = some [] := by decide
+example : colCounts (RA.ofRows [[], [1, 2], [], [3, 4, 5], [-7], []]) = [3, 2, 1] ∧
+    Spec.colCounts [[], [1, 2], [], [3, 4, 5], [-7], []] = [3, 2, 1] := by decide
+example : colCounts (RA.ofRows ([] : List (List Nat))) = [] ∧
+    colCounts (RA.ofRows [([] : List Nat), []]) = [] := by decide
+example : columnValues (RA.ofRows [[], [1, 2], [], [3, 4, 5], [7], []]) 1 = some (.vec [2, 4]) ∧
+    columnValues (RA.ofRows [[], [1, 2], [], [3, 4, 5], [7], []]) 3 = some (.vec []) := by decide
+
 end Props.C09
